@@ -229,6 +229,11 @@ def finish(report: Report, explanation: str, trusted: List[str]) -> int:
         'violations': len(new_findings),
     }
     evdir = os.environ.get('VERIF_EVIDENCE_DIR') or os.path.join(VERIF_DIR, 'evidence')
+    if not os.environ.get('VERIF_EVIDENCE_DIR') and \
+            os.path.realpath(report.repo) != os.path.realpath('/repo'):
+        # a run against a scratch copy (--repo <dir>) must not overwrite the evidence of /repo
+        import tempfile
+        evdir = os.path.join(tempfile.gettempdir(), 'gvstatic-evidence-scratch')
     os.makedirs(evdir, exist_ok=True)
     with open(os.path.join(evdir, f'{report.property_id}.json'), 'w') as fh:
         json.dump(ev, fh, indent=1, default=str)
